@@ -15,7 +15,7 @@ PROPERTY = "C08"
 BOUNDS = {
     "quick": {"history": "every sequence of 2 operations over the listed operations (plus every length-3 sequence of add/remove/discard for HeaderSet)", "keys/elements": "1 solver character each over {a, A, b, B, c}",
               "values": "distinct concrete tokens"},
-    "thorough": {"history": "3 operations (4 for HeaderSet)"},
+    "thorough": {"histories": "HeaderSet: all length-3 sequences + length-4 over add/remove/discard/update; Headers / MultiDict: all length-2 + length-3 over six core mutators"},
 }
 STUBS = ["none"]
 ASSUMPTIONS = ["HeaderSet item assignment is only exercised with a value not already present elsewhere (otherwise the documented set model does not define the result)",
@@ -621,20 +621,25 @@ def obligations(tier, seed):
         for shape in ("swap", "three", "other"):
             out.append({"name": f"immutable_hash[{cls},{shape}]", "body": "body_immutable_hash", "params": {"cls": cls, "shape": shape},
                         "opts": {"budget_s": 600, "ctx": {"max_cp": 0x7F}}})
-    hs_len, other_len = (3, 2) if quick else (4, 3)
-    seqs = list(itertools.product(HS_OPS, repeat=hs_len - 1 if quick else hs_len))
-    if quick:
-        seqs += list(itertools.product(["add", "remove", "discard"], repeat=3))
+    other_len = 2
+    # thorough: every sequence of length 3 over all mutators, and of length 4 over add / remove /
+    # discard / update (the operations that touch both the list and the lookup set)
+    seqs = list(itertools.product(HS_OPS, repeat=2 if quick else 3))
+    seqs += list(itertools.product(["add", "remove", "discard"], repeat=3)) if quick else \
+        list(itertools.product(["add", "remove", "discard", "update2"], repeat=4))
     for ops in seqs:
         out.append({"name": f"headerset[{'+'.join(ops)}]", "body": "body_headerset", "params": {"ops": list(ops)},
                     "opts": {"budget_s": 600, "ctx": {"max_cp": 0x7F}}, "witness": ops == ("add", "remove", "add")})
-    for ops in itertools.product(H_OPS, repeat=other_len):
+    CORE_H = ["add", "set", "remove", "pop-index", "setlist", "extend"]
+    hseqs = list(itertools.product(H_OPS, repeat=other_len)) + ([] if quick else list(itertools.product(CORE_H, repeat=3)))
+    for ops in hseqs:
         out.append({"name": f"headers[{'+'.join(ops)}]", "body": "body_headers", "params": {"ops": list(ops)},
                     "opts": {"budget_s": 600, "ctx": {"max_cp": 0x7F}}, "witness": ops == ("add", "set")})
     # (the deprecated OrderedMultiDict orders pairs globally, not per key: a different abstract
     # model, not named by the property -- outside the claim)
     for cls in ("MultiDict",):
-        for ops in itertools.product(MD_OPS, repeat=other_len):
+        CORE_MD = ["add", "setitem", "setlist", "pop", "poplist", "update"]
+        for ops in list(itertools.product(MD_OPS, repeat=other_len)) + ([] if quick else list(itertools.product(CORE_MD, repeat=3))):
             out.append({"name": f"multidict[{cls},{'+'.join(ops)}]", "body": "body_multidict", "params": {"ops": list(ops), "cls": cls},
                         "opts": {"budget_s": 600, "ctx": {"max_cp": 0x7F}}, "witness": ops == ("add", "pop")})
     for cls in ("MultiDict", "ImmutableMultiDict"):
